@@ -45,3 +45,22 @@ prepare_C18() {
   return 0
 }
 prepare_C19() { prepare_C18; }
+
+build_wasm() { # fresh otp.wasm + scratch copy of the JS package
+  mkdir -p "$S/otp-js/src" "$S/otp-js/lib" || return 1
+  cp "$REPO/otp-js/src/index.js" "$S/otp-js/src/" || return 1
+  if [ -f "$GOROOT_VERIF/lib/wasm/wasm_exec.js" ]; then cp "$GOROOT_VERIF/lib/wasm/wasm_exec.js" "$S/otp-js/src/wasm_exec.js"
+  elif [ -f "$GOROOT_VERIF/misc/wasm/wasm_exec.js" ]; then cp "$GOROOT_VERIF/misc/wasm/wasm_exec.js" "$S/otp-js/src/wasm_exec.js"
+  else cp "$REPO/otp-js/src/wasm_exec.js" "$S/otp-js/src/wasm_exec.js"; fi
+  if [ -n "${VERIF_OVERLAY:-}" ] && grep -q 'otp-js/src/index.js' "$VERIF_OVERLAY"; then
+    cp "$(python3 -c "import json,sys;print(json.load(open('$VERIF_OVERLAY'))['Replace']['$REPO/otp-js/src/index.js'])")" "$S/otp-js/src/index.js"
+  fi
+  (cd "$REPO" && GOFLAGS= GOOS=js GOARCH=wasm "$GO_BIN" build $OVL -o "$S/otp-js/lib/otp.wasm" ./wasm) 2>>"$S/build.err" || { cat "$S/build.err" >&2; return 1; }
+  export VERIF_JS_DIR=$S/otp-js VERIF_JS_DRIVER=$VERIF_ROOT/js/driver.js
+}
+build_wasmnative() { # the binding's Go sources compiled natively through an overlay (optional: failure => sub-checks inconclusive)
+  REPO=$REPO VERIF_ROOT=$VERIF_ROOT python3 "$VERIF_ROOT/tools/mkwasmnative.py" "$S/wn" 2>>"$S/build.err" || return 0
+  (cd "$REPO" && GOFLAGS= "$GO_BIN" build -overlay="$S/wn/overlay.json" -tags verif_wasmnative "$@" -o "$S/wasmnative" ./wasm) 2>>"$S/build.err" && export VERIF_WASMNATIVE_BIN=$S/wasmnative
+  return 0
+}
+prepare_C20() { prepare_default && build_wasm && build_wasmnative; }
